@@ -78,6 +78,13 @@ impl Context {
         }
     }
 
+    /// Leaves every subprogram context, back to the global one.
+    pub fn unwind_to_global(&mut self) {
+        while self.states.len() > 1 {
+            self.do_pop();
+        }
+    }
+
     pub fn push_error_handler_context(&mut self) {
         self.drop_collecting_arguments();
         self.do_push_existing(0, false);
